@@ -338,6 +338,14 @@ Definition non_negative_parafac_hals (utm utu : nat -> cp_state -> nat -> mat) (
 Definition cp_hals_utm (T : tensor F) (st : cp_state) (mode : nat) : mat := transp (mttkrp T (fst st) (snd st) mode).
 Definition cp_hals_utu (st : cp_state) (mode : nat) : mat := wscale (fst st) (gram_skip (length (fst st)) mode (snd st)).
 
+(* non_negative_parafac_hals with a user (weights, factors) (after 3d55b5c): when the LAST mode is fixed the weights are pulled into the
+   last updated mode instead of the last factor (no updated mode: initialize_cp's last factor); then optional normalisation *)
+Definition absorb_at (k : nat) (w : vec) (Fs : list mat) : list mat := set_nth k (mul_cols (nth k Fs []) w) Fs.
+Definition initialize_cp_user_hals (w : vec) (Fs : list mat) (modes : list nat) (normalize : bool) : cp_state :=
+  let lastm := length Fs - 1 in
+  let k := if memb lastm modes then lastm else last modes lastm in
+  cp_fin normalize (repeat one (length w), absorb_at k w Fs).
+
 (* the number of inner sweeps of the real algorithm: hals_nnls(..., n_iter_max=100, tol=tol) (tol = 1e-8 unless exact) *)
 Definition cp_hals_inner (T : tensor F) (sps : list (option F)) (tol : F) (st : cp_state) (mode : nat) : nat :=
   hals_count zero (nth mode sps None) None (cp_hals_utm T st mode) (cp_hals_utu st mode) (transp (nth mode (snd st) [])) 100 tol.
@@ -351,6 +359,10 @@ Definition initialize_cp_user (w : vec) (Fs : list mat) : cp_state :=
 (* initialize_cp with a user (weights, factors) as called by the decompositions: optionally normalised afterwards *)
 Definition initialize_cp_user_norm (w : vec) (Fs : list mat) (normalize : bool) : cp_state :=
   cp_fin normalize (initialize_cp_user w Fs).
+(* initialize_cp(init='svd', non_negative=True): mode 0 is scaled by the singular values, then abs, then optional normalisation *)
+Definition initialize_cp_nn_svd (R : nat) (Us : list mat) (S0 : vec) (normalize : bool) : cp_state :=
+  initialize_cp_nn R (map_first (fun U => mul_cols U S0) Us) normalize.
+
 
 (* ---------------------------------------------------------------- non_negative_tucker (MU) *)
 Definition tk_mu_mode (eps : F) (numf denf : tk_state -> nat -> mat) (st : tk_state) (mode : nat) : tk_state :=
@@ -476,6 +488,17 @@ Definition constrained_parafac (nn : list nat) (other : nat -> mat -> mat)
            (stop : nat -> ccp_state -> bool) (modes : list nat) (n_iter_max : nat) (init : ccp_state) : ccp_state :=
   outer_loop n_iter_max 0 (fun it st => fold_left (ccp_mode nn other (split it) (inner it)) modes st)
              stop (fun st => st) (fun st => st) init.
+(* the real ADMM split step (solve = tl.solve with a matrix right-hand side, LAPACK: an argument):
+   rho = trace(UtU) / rank; x_split = solve((UtU + rho I)^T, (UtM + rho (x + dual))^T); the skeleton uses x_split^T *)
+Definition admm_split (solve : mat -> mat -> mat) (UtM UtU x dual : mat) : mat :=
+  let R := length UtU in
+  let rho := fsum Op (map (fun k => nth k (nth k UtU []) zero) (seq 0 R)) [/] nat2F Op R in
+  let A := map (fun r => map (fun c => nth c (nth r UtU []) zero [+] (if Nat.eqb r c then rho else zero)) (seq 0 R)) (seq 0 R) in
+  let B := map3 (fun um xr dr => map3 (fun u a d => u [+] (rho [*] (a [+] d))) um xr dr) UtM x dual in
+  transp (solve (transp A) (transp B)).
+(* constrained_parafac: mttkrp = unfolding_dot_khatri_rao(tensor, (None, factors), mode), pseudo_inverse = Hadamard of the other Grams *)
+Definition ccp_split (solve : mat -> mat -> mat) (T : tensor F) (R : nat) (st : ccp_state) (mode : nat) (x dual : mat) : mat :=
+  admm_split solve (mttkrp T (repeat one R) (fst st) mode) (gram_skip R mode (fst st)) x dual.
 (* initialize_constrained_parafac ('svd'/'random'): the prox of every raw factor *)
 Definition initialize_ccp (nn : list nat) (other : nat -> mat -> mat) (raw : list mat) : list mat :=
   mapi_from 0 (fun k M => prox_nn (memb k nn) (other k) M) raw.
